@@ -230,7 +230,7 @@ Ltac obs_same_close :=
         apply (obs_same_trans o X); [|apply obs_same_on_upd; intros; cbn; repeat split; reflexivity]
     | |- obs_same ?o (fold_left (fun o i => oi_upd i ?f o) ?l ?X) =>
         apply (obs_same_trans o X); [|apply obs_same_fold_oi_upd; intros; cbn; split; reflexivity]
-    | |- obs_same ?o (set _ _ ?X) =>
+    | |- obs_same ?o (RecordSet.set _ _ ?X) =>
         apply (obs_same_trans o X); [|apply obs_same_eq; reflexivity]
     end ].
 
@@ -243,6 +243,261 @@ Proof.
   try discriminate Hex; unfold note_late_commit;
   repeat match goal with |- context[if ?b then _ else _] => destruct b end;
   try apply obs_same_refl; obs_same_close.
-(*STOP*)
+Qed.
+(* ---- model side ------------------------------------------------------------------------------------- *)
+Lemma sys_same_refl s : sys_same s s.
+Proof.
+  repeat split; intros k; [destruct (get k (insts s)) as [x|]|destruct (get k (viss s)) as [v|]]; eauto 8.
+Qed.
+
+Lemma sys_same_trans s1 s2 s3 : sys_same s1 s2 -> sys_same s2 s3 -> sys_same s1 s3.
+Proof.
+  intros (A1 & B1 & C1 & D1) (A2 & B2 & C2 & D2). repeat split; try congruence.
+  - intros j. specialize (C1 j). specialize (C2 j). destruct (get j (insts s1)) as [x|].
+    + destruct C1 as (x2 & E2 & ? & ? & ?). rewrite E2 in C2. destruct C2 as (x3 & E3 & ? & ? & ?).
+      exists x3. repeat split; congruence.
+    + now rewrite C1 in C2.
+  - intros n. specialize (D1 n). specialize (D2 n). destruct (get n (viss s1)) as [v|].
+    + destruct D1 as (v2 & E2 & ? & ? & ?). rewrite E2 in D2. destruct D2 as (v3 & E3 & ? & ? & ?).
+      exists v3. repeat split; congruence.
+    + now rewrite D1 in D2.
+Qed.
+
+Lemma sys_same_eq s s' : confs s' = confs s -> thinst s' = thinst s -> insts s' = insts s -> viss s' = viss s ->
+  sys_same s s'.
+Proof.
+  intros A B C D. repeat split; auto.
+  - intros k. rewrite C. destruct (get k (insts s)) as [x|]; eauto 8.
+  - intros k. rewrite D. destruct (get k (viss s)) as [v|]; eauto 8.
+Qed.
+
+Lemma sys_same_upd_inst i f s :
+  (forall x, nm (f x) = nm x /\ cf (f x) = cf x /\ launches (f x) = launches x) -> sys_same s (upd_inst i f s).
+Proof.
+  intros Hf. repeat split; [apply upd_inst_confs|apply upd_inst_thinst| |].
+  - intros j. rewrite insts_upd_inst. destruct (N.eqb i j); destruct (get j (insts s)) as [x|]; cbn; eauto 8;
+      exists (f x); destruct (Hf x) as (? & ? & ?); auto.
+  - intros n. rewrite upd_inst_viss. destruct (get n (viss s)) as [v|]; eauto 8.
+Qed.
+
+Lemma sys_same_upd_vis n f s :
+  (forall v, code (f v) = code v /\ st (f v) = st v /\ restarts (f v) = restarts v) -> sys_same s (upd_vis n f s).
+Proof.
+  intros Hf. repeat split; [apply upd_vis_confs|apply upd_vis_thinst| |].
+  - intros j. rewrite upd_vis_insts. destruct (get j (insts s)) as [x|]; eauto 8.
+  - intros m. rewrite viss_upd_vis. destruct (N.eqb n m); destruct (get m (viss s)) as [v|]; cbn; eauto 8;
+      exists (f v); destruct (Hf v) as (? & ? & ?); auto.
+Qed.
+
+Lemma sys_same_fold_upd_inst (f : inst -> inst) l :
+  (forall x, nm (f x) = nm x /\ cf (f x) = cf x /\ launches (f x) = launches x) ->
+  forall s, sys_same s (fold_left (fun s i => upd_inst i f s) l s).
+Proof.
+  intros Hf. induction l as [|a l IH]; intros s; cbn; [apply sys_same_refl|].
+  eapply sys_same_trans; [apply (sys_same_upd_inst a f s Hf)|apply IH].
+Qed.
+
+Ltac sys_same_close :=
+  unfold set_pc, end_release_early, end_finish;
+  repeat first
+  [ apply sys_same_refl
+  | match goal with
+    | |- sys_same ?s (upd_inst ?i ?f ?X) =>
+        apply (sys_same_trans s X); [|apply sys_same_upd_inst; intros; cbn; repeat split; try reflexivity; destruct_matches; reflexivity]
+    | |- sys_same ?s (upd_vis ?n ?f ?X) =>
+        apply (sys_same_trans s X); [|apply sys_same_upd_vis; intros; cbn; repeat split; try reflexivity; destruct_matches; reflexivity]
+    | |- sys_same ?s (fold_left (fun s i => upd_inst i ?f s) ?l ?X) =>
+        apply (sys_same_trans s X); [|apply sys_same_fold_upd_inst; intros; cbn; repeat split; reflexivity]
+    | |- sys_same ?s (set_thread ?th ?t ?X) =>
+        apply (sys_same_trans s X); [|apply sys_same_eq; reflexivity]
+    | |- sys_same ?s (RecordSet.set _ _ ?X) =>
+        apply (sys_same_trans s X); [|apply sys_same_eq; reflexivity]
+    | |- sys_same ?s (if ?b then _ else _) => destruct b
+    | |- sys_same ?s (match ?b with _ => _ end) => destruct b
+    end ].
+
+Ltac kind_cases H :=
+  unfold_steps H; unfold own_inst in H; cbn [fst snd] in H; break_step H;
+  repeat match goal with E : (match _ with _ => _ end) = Some _ |- _ => break_step E end;
+  repeat match goal with E : _ = ?s' |- _ => is_var s'; subst s' end.
+
+Lemma step_reg_same s th e s' : exceptional e = false -> step_reg s th e = Some s' -> sys_same s s'.
+Proof. intros Hex H. destruct e; try discriminate Hex; kind_cases H; sys_same_close. Qed.
+Lemma step_stop_same s th e s' : step_stop s th e = Some s' -> sys_same s s'.
+Proof. intros H. destruct e; kind_cases H; sys_same_close. Qed.
+Lemma step_shutdown_same s th e s' : step_shutdown s th e = Some s' -> sys_same s s'.
+Proof. intros H. destruct e; kind_cases H; sys_same_close. Qed.
+Lemma step_env_same s th e s' : step_env s th e = Some s' -> sys_same s s'.
+Proof. intros H. destruct e; kind_cases H; sys_same_close. Qed.
+Lemma step_api_same s th e s' : step_api s th e = Some s' -> sys_same s s'.
+Proof. intros H. destruct e; kind_cases H; sys_same_close.
+Qed.
+Lemma step_procend_same s th i s0 b s' : step_procend s th i s0 b = Some s' -> sys_same s s'.
+Proof. intros H. kind_cases H; sys_same_close. Qed.
+Lemma step_ordered_same s th i s' : step_ordered_go s th i = Some s' -> sys_same s s'.
+Proof. intros H. kind_cases H; sys_same_close. Qed.
+Lemma step_own_same s th e s' : exceptional e = false -> step_own s th e = Some s' -> sys_same s s'.
+Proof.
+  intros Hex H. destruct e; try discriminate Hex; kind_cases H; try discriminate Hex;
+  try (match goal with ok : bool |- _ => destruct ok; try discriminate Hex end); sys_same_close.
+Qed.
+
+Lemma step_core_same s th e s' : exceptional e = false -> step_core s th e = Some s' -> sys_same s s'.
+Proof.
+  intros Hex H. destruct (step_core_kind _ _ _ _ H) as [? ?|i x ? ? ? ? ? ?| | | |i s0 ? ?|i s0 b ? ?| |i ? ?| | ]; subst;
+    try discriminate Hex;
+    eauto using sys_same_refl, step_reg_same, step_stop_same, step_shutdown_same, step_env_same, step_api_same,
+                step_procend_same, step_ordered_same, step_own_same.
+Qed.
+Definition obs_status_upd (s0 : status) (r : oname) : oname :=
+  let r := r <| r_status := s0 |> in
+  match s0 with SSkipped | SError => r <| r_code := 1%Z |> | _ => r end.
+
+Lemma Rc_status s o n s0 : Rc cs s o -> Rc cs (write_status n s0 s) (on_upd n (obs_status_upd s0) o).
+Proof.
+  intros [H1 H2 H3 H4 H5]. constructor.
+  - now rewrite write_status_confs.
+  - intros th. rewrite write_status_thinst, on_upd_o_th. apply H2.
+  - intros i x. rewrite write_status_insts, on_upd_oi. apply H3.
+  - intros i. rewrite write_status_insts, on_upd_oi. apply H4.
+  - intros m c Hm. destruct (H5 m c Hm) as (v & r & Ev & Er & Hc & Hs & Hr).
+    unfold write_status. rewrite viss_upd_vis, on_upd_get, Ev, Er. destruct (N.eqb n m); cbn; [|eauto 8].
+    eexists; eexists; split; [reflexivity|split; [reflexivity|]].
+    unfold obs_status_upd. destruct s0; cbn; auto.
+Qed.
+
+Lemma Rc_code s o n c : Rc cs s o ->
+  Rc cs (upd_vis n (fun v => v <| code := c |>) s) (on_upd n (fun r => r <| r_code := c |>) o).
+Proof.
+  intros [H1 H2 H3 H4 H5]. constructor.
+  - now rewrite upd_vis_confs.
+  - intros th. rewrite upd_vis_thinst, on_upd_o_th. apply H2.
+  - intros i x. rewrite upd_vis_insts, on_upd_oi. apply H3.
+  - intros i. rewrite upd_vis_insts, on_upd_oi. apply H4.
+  - intros m c0 Hm. destruct (H5 m c0 Hm) as (v & r & Ev & Er & Hc & Hs & Hr).
+    rewrite viss_upd_vis, on_upd_get, Ev, Er. destruct (N.eqb n m); cbn; eauto 8.
+Qed.
+
+Lemma Rc_restarts s o n : Rc cs s o ->
+  Rc cs (upd_vis n (fun v => v <| restarts := S (restarts v) |>) s) (on_upd n (fun r => r <| r_restarts := S (r_restarts r) |>) o).
+Proof.
+  intros [H1 H2 H3 H4 H5]. constructor.
+  - now rewrite upd_vis_confs.
+  - intros th. rewrite upd_vis_thinst, on_upd_o_th. apply H2.
+  - intros i x. rewrite upd_vis_insts, on_upd_oi. apply H3.
+  - intros i. rewrite upd_vis_insts, on_upd_oi. apply H4.
+  - intros m c0 Hm. destruct (H5 m c0 Hm) as (v & r & Ev & Er & Hc & Hs & Hr).
+    rewrite viss_upd_vis, on_upd_get, Ev, Er. destruct (N.eqb n m); cbn; eauto 8.
+    eexists; eexists; split; [reflexivity|split; [reflexivity|]]. cbn. auto.
+Qed.
+
+Lemma Rc_launch s o i : Rc cs s o ->
+  Rc cs (upd_inst i (fun x => x <| alive := true |> <| launches := S (launches x) |> <| pc := IAlive |>) s)
+        (oi_upd i (fun x => x <| o_launches := S (o_launches x) |> <| o_alive := true |> <| o_elapsed := false |> <| o_commit := false |>) o).
+Proof.
+  intros [H1 H2 H3 H4 H5]. constructor.
+  - now rewrite upd_inst_confs.
+  - intros th. rewrite upd_inst_thinst, oi_upd_o_th. apply H2.
+  - intros j x. rewrite insts_upd_inst, oi_upd_get. destruct (N.eqb i j).
+    + destruct (get j (insts s)) as [y|] eqn:Ey; cbn; [|discriminate]. intros Hx. injection Hx as <-.
+      destruct (H3 j y Ey) as (xo & Exo & ? & ? & ?). rewrite Exo. cbn. eexists; split; [reflexivity|]. cbn. auto.
+    + apply H3.
+  - intros j. rewrite insts_upd_inst, oi_upd_get. destruct (N.eqb i j); [|apply H4].
+    destruct (get j (insts s)) eqn:Ey; cbn; [discriminate|]. intros _. now rewrite (H4 j Ey).
+  - intros m c Hm. rewrite upd_inst_viss, oi_upd_onm. exact (H5 m c Hm).
+Qed.
+
+Lemma Rc_name_of s o i x : Rc cs s o -> get i (insts s) = Some x -> o_nm (oi_get o i) = nm x.
+Proof.
+  intros [H1 H2 H3 H4 H5] Hx. destruct (H3 i x Hx) as (xo & Exo & ? & _). unfold oi_get. now rewrite Exo.
+Qed.
+
+Lemma Rc_own s o th i x : Rc cs s o -> get th (thinst s) = Some i -> get i (insts s) = Some x ->
+  get th (o_th o) = Some i /\ o_nm (oi_get o i) = nm x.
+Proof. intros HR Ht Hx. split; [now rewrite <- (rc_th _ _ _ HR)|eapply Rc_name_of; eauto]. Qed.
+
+Lemma Rc_state_obs s1 o i n st0 : Rc cs s1 o ->
+  Rc cs (write_status n st0 s1)
+     (oi_upd i (fun x => if opt_eqb status_eqb (o_endst x) (Some st0) then x <| o_ended := true |> else x)
+        (on_upd n (obs_status_upd st0)
+           (if status_eqb st0 STerminating && terminal (r_status (on_get o n)) then o <| w_late := true |> else o))).
+Proof.
+  intros HR1.
+  eapply Rc_obs_same; [|apply obs_same_oi_upd; intros y; destruct (opt_eqb _ _ _); cbn; auto].
+  apply Rc_status. eapply Rc_obs_same; [exact HR1|].
+  destruct (_ && _); [apply obs_same_eq; reflexivity|apply obs_same_refl].
+Qed.
+
+Lemma Rc_step s o th e s' : Rc cs s o -> step s (th, e) = Some s' -> Rc cs s' (obs_step cs o (th, e)).
+Proof.
+  intros HR H. unfold step in H. cbn [fst snd] in H.
+  assert (HR0 : Rc cs (flush th s) o) by (eapply Rc_sys_same; eauto using sys_same_flush).
+  set (s0 := flush th s) in *. clearbody s0. clear HR s.
+  destruct (exceptional e) eqn:Hex.
+  2:{ eapply Rc_obs_same; [eapply Rc_sys_same; [exact HR0|eapply step_core_same; eauto]|now apply obs_step_same]. }
+  destruct HR0 as [H1 H2 H3 H4 H5].
+  destruct e; try discriminate Hex.
+  - (* ENewInst *)
+    cbn in H. unfold step_reg in H. break_step H. subst s'. rewrite H1 in E.
+    apply negb_true_iff in E0. unfold has in E0. destruct (get i (insts s0)) eqn:Ei; [discriminate|].
+    eapply Rc_obs_same; [|apply obs_same_refresh]. cbn [fst snd ev_inst].
+    constructor; cbn.
+    + exact H1.
+    + exact H2.
+    + intros j x. rewrite get_set. destruct (N.eqb_spec i j).
+      * subst j. intros Hx. injection Hx as <-. eexists. rewrite get_set_same. split; [reflexivity|]. cbn. auto.
+      * intros Hx. rewrite get_set_other by assumption. now apply H3.
+    + intros j. rewrite !get_set. destruct (N.eqb_spec i j); [discriminate|]. apply H4.
+    + exact H5.
+  - (* EBegin *)
+    cbn in H. break_step H. subst s'.
+    eapply Rc_obs_same; [|apply obs_same_refresh]. cbn [fst snd ev_inst].
+    constructor; cbn; auto.
+    intros t. rewrite !get_set. destruct (N.eqb th t); [reflexivity|apply H2].
+  - (* EState *)
+    cbn in H. assert (HR0 : Rc cs s0 o) by (constructor; assumption).
+    unfold step_state in H.
+    destruct (get i (insts s0)) as [x|] eqn:Ex; [|discriminate].
+    pose proof (Rc_name_of _ _ _ _ HR0 Ex) as Hn.
+    eapply Rc_obs_same; [|apply obs_same_refresh]. cbn [fst snd ev_inst]. cbv zeta. rewrite !Hn.
+    assert (HRo : forall s1, Rc cs s1 o -> Rc cs (write_status (nm x) s s1) _) by (intros s1; apply (Rc_state_obs s1 o i (nm x) s)).
+    break_step H; subst s'; split_andb;
+      repeat match goal with E : status_eqb _ _ = true |- _ => apply status_eqb_eq in E; subst end;
+      unfold set_pc, end_finish;
+      repeat match goal with
+      | |- Rc _ (if ?b then _ else _) _ => destruct b
+      | |- Rc _ (set_thread ?t ?v ?X) _ => eapply Rc_sys_same; [|apply (sys_same_eq X); reflexivity]
+      | |- Rc _ (upd_inst ?j ?f ?X) _ => eapply Rc_sys_same; [|apply (sys_same_upd_inst j f X); intros; cbn; repeat split; try reflexivity; destruct_matches; reflexivity]
+      end;
+      try (apply HRo; exact HR0).
+  - (* ELaunch true *)
+    destruct ok; [|discriminate Hex].
+    cbn in H. assert (HR0 : Rc cs s0 o) by (constructor; assumption).
+    unfold step_own, own_inst in H.
+    destruct (get th (thinst s0)) as [j|] eqn:Et; [|discriminate].
+    destruct (get j (insts s0)) as [x|] eqn:Ex; [|discriminate].
+    destruct (Rc_own _ _ _ _ _ HR0 Et Ex) as [Hth Hn].
+    eapply Rc_obs_same; [|apply obs_same_refresh]. cbn [fst snd ev_inst]. rewrite Hth.
+    break_step H; subst s'. apply Rc_launch. exact HR0.
+  - (* EExitCode *)
+    cbn in H. assert (HR0 : Rc cs s0 o) by (constructor; assumption).
+    unfold step_own, own_inst in H.
+    destruct (get th (thinst s0)) as [j|] eqn:Et; [|discriminate].
+    destruct (get j (insts s0)) as [x|] eqn:Ex; [|discriminate].
+    destruct (Rc_own _ _ _ _ _ HR0 Et Ex) as [Hth Hn].
+    eapply Rc_obs_same; [|apply obs_same_refresh]. cbn [fst snd ev_inst]. rewrite Hth, Hn.
+    break_step H; subst s'. split_andb. repeat match goal with E : ?a = ?b :> Z |- _ => subst a || subst b end.
+    unfold set_pc. eapply Rc_sys_same; [|apply sys_same_upd_inst; intros; cbn; auto].
+    apply Rc_code. exact HR0.
+  - (* EBackoffWait *)
+    cbn in H. assert (HR0 : Rc cs s0 o) by (constructor; assumption).
+    unfold step_own, own_inst in H.
+    destruct (get th (thinst s0)) as [j|] eqn:Et; [|discriminate].
+    destruct (get j (insts s0)) as [x|] eqn:Ex; [|discriminate].
+    destruct (Rc_own _ _ _ _ _ HR0 Et Ex) as [Hth Hn].
+    eapply Rc_obs_same; [|apply obs_same_refresh]. cbn [fst snd ev_inst]. rewrite Hth, Hn.
+    break_step H; subst s'.
+    unfold set_pc. eapply Rc_sys_same; [|apply sys_same_upd_inst; intros; cbn; auto].
+    apply Rc_restarts. exact HR0.
 Qed.
 End RelCoreStep2.
